@@ -1103,7 +1103,14 @@ def run(ctx):
     check_da_members(ctx)
     check_inval(ctx)
     n = check_footer(ctx, 'C12-footer')
-    ctx.minimum('C12-footer', 3)
+    # the footer scanners never read or step beyond the terminating NUL and use no search result untested
+    from . import cursor as _cursor
+    Gx = ctx.G
+    kspec = Gx.one('cctz::ParsePosixSpec')
+    for k2, (u2, f2) in sorted(Gx.defs.items()):
+        if u2.name == 'time_zone_posix.cc' and k2 in Gx.reachable([kspec]) | {kspec}:
+            _cursor.check_function(ctx, 'C12-footer', k2)
+    ctx.minimum('C12-footer', 13)
     # C12-fail
     u, f = ctx.fn('cctz::TimeZoneInfo::Make')
     F = ctx.facts(f)
